@@ -794,7 +794,10 @@ Definition step_C17 (ms : mstate) (o : op) (s : list event * result) : bool :=
   | OAdd rg =>
       if clean_reg rg
       then (* a well-formed registration is rejected exactly when one of its (type,key) identities is taken *)
-           let dup := existsb (fun '(t, n, g, _) => (g =? 0) && (negb (t =? T_VOID) || negb (n =? 0)) && spec_has rs t n) (provides rg) in
+           let plain := filter (fun '(t, n, g, _) => (g =? 0) && (negb (t =? T_VOID) || negb (n =? 0))) (provides rg) in
+           (* ... by an earlier registration, or by another output of this very registration *)
+           let self_dup := negb (later_pairs (fun '(t1, n1, _, _) '(t2, n2, _, _) => negb ((t1 =? t2) && (n1 =? n2))) plain) in
+           let dup := self_dup || existsb (fun '(t, n, _, _) => spec_has rs t n) plain in
            match r with
            | RUnit => negb dup
            | RErr EAlready _ => dup
